@@ -19,6 +19,27 @@ namespace Http
 
 #include "store_status_enum.inc"     // REAL text: typedef enum { STORE_OK, STORE_PENDING } store_status_t; (src/enums.h)
 
+#if defined(T_REFWD) || defined(MG_NATIVE)
+// ---- extra surroundings of FwdState::reforward() / Http::IsReforwardableStatus() (target reforward only) ----
+#include "entry_flags_enum.inc"      // REAL text: enum { ENTRY_SPECIAL, ..., ENTRY_FWD_HDR_WAIT, ..., ENTRY_ABORTED, ... }; (src/enums.h)
+#define EBIT_TEST(flag, bit)    ((flag) & ((1L<<(bit))))    // src/defines.h verbatim (checked by gen.py)
+#define URL_CHECKSUM_DEBUG 0
+#ifndef MG_NATIVE
+typedef unsigned short uint16_t;
+#define assert(EX) __CPROVER_assert((EX), "assert(" #EX ")")   // squid's assert() aborts; here a proof obligation
+#endif
+namespace Http
+{
+#include "statuscode_enum.inc"       // REAL text: typedef enum { scNone = 0, ..., scGatewayTimeout = 504, ... } StatusCode; (src/http/StatusCode.h)
+#ifdef MG_NATIVE
+bool IsReforwardableStatus(StatusCode);    // g++ wants the namespace-scope declaration before the qualified definition
+#endif
+// Http::IsReforwardableStatus(): REAL body, included by wrap.cc before reforward.inc (a separate declaration with a non-const parameter
+// does not unify with the definition's 'const StatusCode s' in this front end)
+}
+#define MG_REFWD 1
+#endif
+
 // src/http/RequestMethod.h: only the data member and the five predicates whose real bodies are sliced in
 class HttpRequestMethod
 {
@@ -66,17 +87,40 @@ public:
     SBuf uri;
 };
 
+#ifdef MG_REFWD
+// src/http/StatusLine.h / HttpReply.h / MemObject.h as far as reforward() looks: mem().baseReply().sline.status()
+class StatusLineR { public: Http::StatusCode status() const { return status_; } Http::StatusCode status_; };
+class HttpReplyR { public: StatusLineR sline; };
+class MemObject
+{
+public:
+    const HttpReplyR &baseReply() const { return *reply_; }     // real one-liner (src/MemObject.h; checked by gen.py)
+    HttpReplyR *reply_;                                           // real: HttpReplyPointer
+};
+#endif
+
 class StoreEntry
 {
 public:
     bool isEmpty() const { return empty_; }   // real: mem().endOffset() == 0 (nothing received from the server yet)
     store_status_t store_status;
     bool empty_;
+#ifdef MG_REFWD
+    MemObject &mem() { assert(mem_obj); return *mem_obj; }       // real one-liner (src/Store.h; checked by gen.py)
+    const char *url() const { return nullptr; }                  // only used inside debugs()
+    MemObject *mem_obj;
+    uint16_t flags;
+#endif
 };
 
 // src/SquidConfig.h, globals.h, time/gadgets.h: the three configuration / global inputs of the retry gate
 struct SquidConfigTimeout { time_t forward; };
-struct SquidConfig { SquidConfigTimeout Timeout; int forward_max_tries; int unused_pad_; };  // explicit pad: the C and C++ front ends must agree on the layout
+#ifdef MG_REFWD
+struct SquidConfigRetry { int onerror; };
+struct SquidConfig { SquidConfigTimeout Timeout; int forward_max_tries; int unused_pad_; SquidConfigRetry retry; };
+#else
+struct SquidConfig { SquidConfigTimeout Timeout; int forward_max_tries; int unused_pad_; };
+#endif  // explicit pad: the C and C++ front ends must agree on the layout
 // The C front end (contract.c) cannot share a struct-typed global with this TU (tag types never unify), so the
 // configuration object lives in the wrapper's frame and `Config` names it through a C-nameable pointer.
 extern "C" {
@@ -89,9 +133,22 @@ extern "C" {
 
 // src/FwdState.h: members touched by checkRetry/checkRetriable/exhaustedTries/ForwardTimeout/EnoughTimeToReForward.
 // self is RefCount<FwdState> in the real class ("!self" == null test); request is a raw HttpRequest* there too.
-class FwdState
+#ifdef MG_REFWD
+// src/ResolvedPeers.h: empty() is "return !availablePaths;" (real one-liner; checked by gen.py)
+class ResolvedPeers { public: bool empty() const { return !availablePaths; } unsigned long availablePaths; };
+// src/PeerSelectState.h: the one data member reforward() reads through its base class
+class PeerSelectionInitiator { public: bool subscribed; };
+#define MG_FWD_BASE : public PeerSelectionInitiator
+#else
+#define MG_FWD_BASE
+#endif
+class FwdState MG_FWD_BASE
 {
 public:
+#ifdef MG_REFWD
+    int reforward();
+    ResolvedPeers *destinations;      // real: ResolvedPeersPointer (RefCount)
+#endif
     bool checkRetry();
     bool checkRetriable();
     bool exhaustedTries() const;
